@@ -5,6 +5,10 @@ import Tickit.Proof.LifeStep
 import Tickit.Proof.LifePens
 import Tickit.Proof.LifeKeys
 import Tickit.Proof.LifeMouse
+import Tickit.Proof.LifeTopSw
+import Tickit.Proof.LifeTop
+import Tickit.Proof.LifeTopEnd
+import Tickit.Proof.LifeFrames
 import Tickit.Gen.Life
 /-
   Property C08 — no API history touches freed or foreign memory, and everything is released.
@@ -91,13 +95,13 @@ def PlainHistory (ops : List Op) : Prop := ∀ op ∈ ops, op.plain = true ∨ o
     never calls `abort()` and never runs out of its recursion budget; the invariant holds again at the end.
     (The application only passes handles it holds, and issues nothing but ref/unref/close on a window that is
     closed or lies below a closed one — `tickit_window_close(3)`; that is what `step` skips.) -/
-theorem no_ub : ∀ (ops : List Op) (st : St), SInv st → PlainHistory ops →
-    ∃ st', runOps extracted st ops = .ok st' ∧ SInv st'
+theorem no_ub : ∀ (ops : List Op) (st : St), SInv .none st → PlainHistory ops →
+    ∃ st', runOps extracted st ops = .ok st' ∧ SInv .none st'
   | [], st, inv, _ => ⟨st, rfl, inv⟩
   | op :: rest, st, inv, h => by
     have hrest : PlainHistory rest := fun o ho => h o (by simp [ho])
     rcases h op (by simp) with hp | hpe | he
-    · obtain ⟨st1, r, hs, inv1⟩ := step_plain_ok extracted_repaired inv op hp
+    · obtain ⟨st1, r, hs, inv1⟩ := step_plain_ok extracted_repaired inv op hp (fun _ _ _ _ => ⟨rfl, rfl⟩)
       obtain ⟨st2, hr, inv2⟩ := no_ub rest st1 inv1 hrest
       exact ⟨st2, by unfold runOps; rw [hs]; exact hr, inv2⟩
     · obtain ⟨st1, r, hs, inv1, _⟩ := step_pen_ok extracted_repaired inv op hpe
@@ -113,8 +117,8 @@ theorem no_ub : ∀ (ops : List Op) (st : St), SInv st → PlainHistory ops →
 
 /-- The same, from the very beginning: a terminal and its root window. -/
 theorem no_ub_from_start (lines cols : Int) (mock : Bool) (ops : List Op) (h : PlainHistory ops) :
-    ∃ st', runOps extracted {} (.newTerm lines cols mock :: ops) = .ok st' ∧ SInv st' := by
-  obtain ⟨st', hr, inv'⟩ := no_ub ops _ (SInv.init lines cols) h
+    ∃ st', runOps extracted {} (.newTerm lines cols mock :: ops) = .ok st' ∧ SInv .none st' := by
+  obtain ⟨st', hr, inv'⟩ := no_ub ops _ (SInv.init lines cols rfl rfl) h
   refine ⟨st', ?_, inv'⟩
   unfold runOps step
   exact hr
@@ -200,7 +204,7 @@ theorem runOps_append (cfg : Cfg) : ∀ (ops1 ops2 : List Op) (s0 s1 : St), runO
     handlers call back into the library (the operation `bind` carries the handler's behaviour).  Not proved:
     see `handlers_counterexample` for why it is false as it stands, and `engines.d/C08.json` for what is open. -/
 def no_ub_handlers_full : Prop :=
-  ∀ (ops : List Op) (st : St), SInv st → (∀ op ∈ ops, op.plain = true ∨ op = .key ∨ (∃ m, op = .mouse m) ∨ op = .«end») →
+  ∀ (ops : List Op) (st : St), SInv .none st → (∀ op ∈ ops, op.plain = true ∨ op = .key ∨ (∃ m, op = .mouse m) ∨ op = .«end») →
     (runOps extracted st ops).isOk = true
 
 /-- Known finding `cascade_steals_claim`: a mouse handler that drops its own window and its parent and claims the
@@ -222,6 +226,80 @@ theorem handlers_counterexample : ¬ no_ub_handlers_full := by
   rw [h3] at h2
   cases h2
 
+/-! ### handlers that drop references: what is true, what is proved, what is open
+
+  `no_ub_handlers_full` is false only through the known finding `cascade_steals_claim`: a dying parent takes one
+  reference from every child still linked to it, also when the application has already dropped that child's creation
+  reference and the child lives on a reference the library itself holds.  The references the library holds across a
+  handler are those of the frames of `_handle_key` / `_handle_mouse` (the window itself and the counted snapshot of
+  its children), the counted reference `_handle_mouse` returns for the window that claimed the event, and the frame
+  `on_term_mouse` opens directly on the drag source.  The frames of a walk from the root window obey a stack discipline
+  - whenever a frame holds a child, a frame holds its parent, so a window that dies has no child the frames hold -; the
+  returned claim does not (it outlives the frame of the claiming window's parent), nor does the frame on the drag
+  source (nobody holds its parent).  Hence the strongest statements that are true of the code as it stands:
+
+  * handlers bound on the **terminal** (they run between the frames, under the entry point's reference to the terminal
+    only) may drop anything, `tickit_window_unref` of any window and `tickit_term_unref` included: **proved**,
+    `top_no_ub` below;
+  * **key** events may be delivered to window handlers with any actions: **proved**, `no_ub_key_handlers_unref`
+    (Proof/LifeFrames.lean);
+  * **mouse** events may be delivered to window handlers with any actions as long as no mouse handler claims an event
+    (then no claim is returned and no drag source is ever set): `no_ub_mouse_handlers_unref` (statement, open); with
+    claims and handlers that free nothing it is **proved** (`no_ub_handlers_keeping`); a claiming mouse handler together
+    with handlers that drop the claiming window and its parent is the known finding (`handlers_counterexample`).
+
+  What the open statement needs beyond what is proved: the lemmas of Proof/LifeFrames.lean (`FK`: exact counts, held
+  windows alive, stack discipline; `unrefW_FK`: a cascade never reaches a held window; `FK.refI` / `FK.unrefI`) redone
+  for `_handle_mouse` and `on_term_mouse` (Proof/LifeMouse.lean: `mouseLoop`, `handleMouseBody`, `mousePrepare`,
+  `mouseDeliver`), and the invariant "no drag source is set" through every operation of a history in which nothing
+  claims a mouse event. -/
+
+/-- **no_ub with key handlers that drop references**: for every history of operations that deliver no event, `bind` of
+    key handlers with **any** actions - `tickit_window_unref` of their own window, of ancestors, of the root window, of
+    any other window included - and key events, nothing is touched after it has been freed and the invariant holds
+    again afterwards.  The proof (Proof/LifeFrames.lean) carries the references the frames of `_handle_key` hold as
+    part of what the library holds: every live window's count is exactly the application's tally plus the frames'
+    references, a window a frame holds is alive, and a frame that holds a child holds its parent (the stack
+    discipline); a destroy cascade a handler starts begins at a window no frame holds, and whatever it frees or drops
+    lies below that window (`Casc.reach`), hence is held by no frame: every dropped child is held by the application,
+    the tally follows the count, and every frame finds its windows alive when it gives its references back - the last
+    of which may destroy the window, no child of it being held then. -/
+theorem no_ub_key_handlers_unref : ∀ (ops : List Op) (st : St), SInv .none st →
+    (∀ op ∈ ops, op.plain = true ∨ op.penEvent = true ∨ op = .key) →
+    ∃ st', runOps extracted st ops = .ok st' ∧ SInv .none st'
+  | [], st, inv, _ => ⟨st, rfl, inv⟩
+  | op :: rest, st, inv, h => by
+    have hrest : ∀ o ∈ rest, o.plain = true ∨ o.penEvent = true ∨ o = .key := fun o ho => h o (by simp [ho])
+    rcases h op (by simp) with hp | hpe | hk
+    · obtain ⟨st1, r, hs, inv1⟩ := step_plain_ok extracted_repaired inv op hp (fun _ _ _ _ => ⟨rfl, rfl⟩)
+      obtain ⟨st2, hr, inv2⟩ := no_ub_key_handlers_unref rest st1 inv1 hrest
+      exact ⟨st2, by unfold runOps; rw [hs]; exact hr, inv2⟩
+    · obtain ⟨st1, r, hs, inv1, _⟩ := step_pen_ok extracted_repaired inv op hpe
+      obtain ⟨st2, hr, inv2⟩ := no_ub_key_handlers_unref rest st1 inv1 hrest
+      exact ⟨st2, by unfold runOps; rw [hs]; exact hr, inv2⟩
+    · subst hk
+      obtain ⟨st1, r, hs, inv1⟩ := step_key_any extracted_repaired inv Ghost.none_covers
+      obtain ⟨st2, hr, inv2⟩ := no_ub_key_handlers_unref rest st1 inv1 hrest
+      exact ⟨st2, by unfold runOps; rw [hs]; exact hr, inv2⟩
+
+/-- OPEN (statement only): key and mouse events delivered to window handlers with any actions, provided that no mouse
+    handler claims an event and no drag source is set (the case in which handlers claim and all handlers free nothing
+    is `no_ub_handlers_keeping`; claiming together with dropping contains the known finding). -/
+def no_ub_mouse_handlers_unref : Prop :=
+  ∀ (ops : List Op) (st : St), SInv .none st → st.tree.root.dragSource = none →
+    (∀ i b, b ∈ (getX st i).binds → b.ev = some .mouse → b.ret = false) →
+    (∀ op ∈ ops, (op.plain = true ∨ op.penEvent = true ∨ op = .key ∨ ∃ m, op = .mouse m) ∧
+      (∀ w ret acts, op = .bind w .mouse ret acts → ret = false)) →
+    ∃ st', runOps extracted st ops = .ok st' ∧ SInv .none st'
+
+/-- Instances the kernel can evaluate: a key handler that drops its own window, its parent and the root window
+    (`no_ub_key_handlers_unref`); a mouse handler that does the same without claiming the event (the open statement). -/
+example : (runOps extracted {} [.newTerm 6 12 false, .win 0 ⟨0, 0, 4, 8⟩ 0, .win 1 ⟨0, 0, 2, 4⟩ 0,
+    .bind 2 .key false [.unref 2, .unref 1, .unref 0], .key, .key, .«end»]).isOk = true := by decide +kernel
+
+example : (runOps extracted {} [.newTerm 6 12 false, .win 0 ⟨0, 0, 4, 8⟩ 0, .win 1 ⟨0, 0, 2, 4⟩ 0,
+    .bind 2 .mouse false [.unref 2, .unref 1, .unref 0], .mouse ⟨1, 1, 1, 1⟩, .mouse ⟨3, 1, 1, 1⟩, .«end»]).isOk = true := by decide +kernel
+
 /-! ### key and mouse events delivered to handlers that free nothing -/
 
 /-- A history with events: operations that deliver no event, `bind` of handlers (on key or mouse events) whose
@@ -239,14 +317,14 @@ def EventHistory (ops : List Op) : Prop :=
     `on_term_mouse`), and the invariant of `no_ub` holds again afterwards.  The proof carries the account
     `1 + int i ≤ refcount i ≤ appRefs i + int i` through the recursion, `int i` being the references the frames hold
     on window `i` (Proof/LifeKeys.lean, Proof/LifeMouse.lean). -/
-theorem no_ub_handlers_keeping : ∀ (ops : List Op) (st : St), SInv st → KeepingHandlers st → EventHistory ops →
-    ∃ st', runOps extracted st ops = .ok st' ∧ SInv st' ∧ KeepingHandlers st'
+theorem no_ub_handlers_keeping : ∀ (ops : List Op) (st : St), SInv .none st → KeepingHandlers st → EventHistory ops →
+    ∃ st', runOps extracted st ops = .ok st' ∧ SInv .none st' ∧ KeepingHandlers st'
   | [], st, inv, H, _ => ⟨st, rfl, inv, H⟩
   | op :: rest, st, inv, H, h => by
     have hrest : EventHistory rest := fun o ho => h o (by simp [ho])
     obtain ⟨hkind, hbind⟩ := h op (by simp)
     rcases hkind with hp | hpe | hk | ⟨m, hm⟩
-    · obtain ⟨st1, r, hs, inv1⟩ := step_plain_ok extracted_repaired inv op hp
+    · obtain ⟨st1, r, hs, inv1⟩ := step_plain_ok extracted_repaired inv op hp (fun _ _ _ _ => ⟨rfl, rfl⟩)
       have H1 := step_plain_keeps hp H hbind hs
       obtain ⟨st2, hr, inv2, H2⟩ := no_ub_handlers_keeping rest st1 inv1 H1 hrest
       exact ⟨st2, by unfold runOps; rw [hs]; exact hr, inv2, H2⟩
@@ -295,7 +373,10 @@ example : (runOps extracted {} [.newTerm 6 12 false, .win 0 ⟨0, 0, 4, 8⟩ 0, 
     terminal's count is the application's references plus one for a live root window, (c) every live window and
     every live render buffer holds at least one reference, (d) a freed window holds no pen, (e) no live window
     holds more references than the application has taken, (f) a live buffer's or string's count is the
-    application's tally. -/
+    application's tally, (g) every live window holds exactly the references the application has taken (its own tally:
+    create +1, ref +1, unref -1, and -1 when a destroyed parent takes the creation reference of a child still linked to
+    it - the converse of `DropOk`, `ConvOk` in Proof/LifeDestroy.lean, shows that nobody else loses a reference in a
+    cascade). -/
 theorem refcount_inv (lines cols : Int) (mock : Bool) (ops : List Op) (h : PlainHistory ops) :
     ∃ st, runOps extracted {} (.newTerm lines cols mock :: ops) = .ok st ∧
       (∀ (k : Nat) (p : Obj), st.pens[k]? = some p →
@@ -307,11 +388,16 @@ theorem refcount_inv (lines cols : Int) (mock : Bool) (ops : List Op) (h : Plain
       (∀ (i : Nat) (w : WinTree.Win), st.tree.wins[i]? = some w → w.freed = true → (getX st i).pen = .null) ∧
       (∀ (i : Nat) (w : WinTree.Win), LiveW st.tree i w → w.refcount ≤ ((getX st i).appRefs : Int)) ∧
       (∀ (k : Nat) (b : RBObj), st.rbs[k]? = some b → b.freed = false → b.refcount = (b.appRefs : Int)) ∧
-      (∀ (k : Nat) (s : StrObj), st.strs[k]? = some s → s.freed = false → 1 ≤ s.refcount ∧ s.refcount = (s.appRefs : Int)) := by
+      (∀ (k : Nat) (s : StrObj), st.strs[k]? = some s → s.freed = false → 1 ≤ s.refcount ∧ s.refcount = (s.appRefs : Int)) ∧
+      (∀ (i : Nat) (w : WinTree.Win), LiveW st.tree i w → w.refcount = ((getX st i).appRefs : Int)) := by
   obtain ⟨st, hr, inv⟩ := no_ub_from_start lines cols mock ops h
   refine ⟨st, hr, inv.pens.rc, fun hf hl => inv.term_held hf (.inl hl), fun hf hl => (inv.term_free hf ?_).1, inv.rc,
-    inv.rb_rc, fun i w hw hf => inv.dead_pen i w hw hf (by simp), inv.wref,
-    fun k b hb hf => (inv.simple.1 k b hb hf).2, inv.simple.2⟩
+    inv.rb_rc, fun i w hw hf => inv.dead_pen i w hw hf (by simp), fun i w hl => by have := (inv.wref i w hl).1; simpa using this,
+    fun k b hb hf => (inv.simple.1 k b hb hf).2, inv.simple.2, fun i w hl => by
+      have h1 := (inv.wref i w hl).1
+      have h2 := (inv.wref i w hl).2 (Ghost.none_covers i)
+      simp only [Ghost.none_win] at h1 h2
+      omega⟩
   rintro (h' | h')
   · exact hl h'
   · simp at h'
@@ -326,10 +412,10 @@ example : (runOps extracted {} [.newTerm 6 12 false, .win 0 ⟨0, 0, 2, 2⟩ 0, 
 /-- Dropping every reference the application holds (`end`: windows from the highest handle down to the root,
     then pens, strings, buffers, the terminal) never fails, whatever the history before, and leaves nothing
     allocated: every window, pen, string, buffer and the terminal is freed and no restacking request is queued. -/
-theorem drop_all_never_fails (st : St) (inv : SInv st) :
-    ∃ st', dropAll extracted st = .ok st' ∧ SInv st' ∧ anythingLeft st' = false := by
+theorem drop_all_never_fails (st : St) (inv : SInv .none st) :
+    ∃ st', dropAll extracted st = .ok st' ∧ SInv .none st' ∧ anythingLeft st' = false := by
   obtain ⟨st', h, inv', H⟩ := dropAll_ok extracted_repaired inv
-  exact ⟨st', h, inv', nothing_left inv' H⟩
+  exact ⟨st', h, inv', nothing_left inv' H rfl (fun _ => rfl)⟩
 
 /-- **all_released**: after any history of operations without event handlers (windows created, referenced, closed,
     restacked, destroyed parents-first or children-first, pens shared between windows and the application,
@@ -354,7 +440,24 @@ theorem all_released (lines cols : Int) (mock : Bool) (ops : List Op) (h : Plain
 /-- The same from the very beginning, and with the final release of everything: nothing remains allocated. -/
 theorem all_released_handlers_keeping (lines cols : Int) (mock : Bool) (ops : List Op) (h : EventHistory ops) :
     ∃ st, runOps extracted {} (.newTerm lines cols mock :: ops ++ [.«end»]) = .ok st ∧ anythingLeft st = false := by
-  obtain ⟨st1, hr, inv1, _⟩ := no_ub_handlers_keeping ops _ (SInv.init lines cols) (keepingHandlers_init lines cols) h
+  obtain ⟨st1, hr, inv1, _⟩ := no_ub_handlers_keeping ops _ (SInv.init lines cols rfl rfl) (keepingHandlers_init lines cols) h
+  obtain ⟨st2, hd, _, hleft⟩ := drop_all_never_fails st1 inv1
+  refine ⟨st2, ?_, hleft⟩
+  have h0 : runOps extracted {} (.newTerm lines cols mock :: ops) = .ok st1 := by
+    unfold runOps step
+    exact hr
+  rw [show (Op.newTerm lines cols mock :: ops ++ [.«end»]) = (Op.newTerm lines cols mock :: ops) ++ [.«end»] from rfl]
+  rw [runOps_append extracted (.newTerm lines cols mock :: ops) [.«end»] {} st1 h0]
+  unfold runOps step
+  simp only [hd, bind_ok, pure_ok]
+  rfl
+
+/-- Key handlers with any actions (`no_ub_key_handlers_unref`): once the application has dropped every reference nothing
+    is left. -/
+theorem all_released_key_handlers_unref (lines cols : Int) (mock : Bool) (ops : List Op)
+    (h : ∀ op ∈ ops, op.plain = true ∨ op.penEvent = true ∨ op = .key) :
+    ∃ st, runOps extracted {} (.newTerm lines cols mock :: ops ++ [.«end»]) = .ok st ∧ anythingLeft st = false := by
+  obtain ⟨st1, hr, inv1⟩ := no_ub_key_handlers_unref ops _ (SInv.init lines cols rfl rfl) h
   obtain ⟨st2, hd, _, hleft⟩ := drop_all_never_fails st1 inv1
   refine ⟨st2, ?_, hleft⟩
   have h0 : runOps extracted {} (.newTerm lines cols mock :: ops) = .ok st1 := by
@@ -387,11 +490,21 @@ example : leftAfter extracted
 /-! ## the process-wide list of SIGWINCH observers (`tickit_term_observe_sigwinch`, src/term.c) and
   `tickit_term_set_input_fd` — model layer `Model/LifeTop.lean`
 
-  The list is modelled with its pointers.  The general statement (`sigwinch_list_safe`) is open; what is proved
-  here are the two kernel-checked counterexamples of the unrepaired code (known finding `sigwinch_stale_next`), that
-  the same histories are harmless once the unlinked terminal's link is reset
-  (fixes/C08_sigwinch_stale_next.patch), and the case the seeded regression `while -> if` breaks: a terminal that
-  stands third in the list is really unlinked. -/
+  The list is modelled with its pointers.  Proved here: the two kernel-checked counterexamples of the code before the
+  repair (a2a7841 in /repo: the unlinked terminal's link is reset), that the same histories are harmless after it, the
+  case the seeded regression `while -> if` breaks (a terminal that stands third in the list is really unlinked), and
+  the general statement `sigwinch_list_safe`. -/
+
+/-- The configuration of the layer `Model/LifeTop.lean` that mirrors the source tree (the driver runs the same). -/
+def extractedTop : TCfg :=
+  { base := extracted, rootForgetsTickit := Gen.Life.rootForgetsTickit, sigwinchClearsNext := Gen.Life.sigwinchClearsNext,
+    setInputFdClearsTermkey := Gen.Life.setInputFdClearsTermkey }
+
+/-- The source tree contains the repairs of this layer (a tree that loses one breaks this at build time): the unlinked
+    terminal's link is reset, `tickit_term_set_input_fd` forgets the TermKey it destroys, a root window that outlives
+    its toplevel instance forgets it. -/
+theorem extractedTop_repaired : extractedTop.sigwinchClearsNext = true ∧ extractedTop.setInputFdClearsTermkey = true ∧
+    extractedTop.rootForgetsTickit = true := ⟨by decide, by decide, by decide⟩
 
 /-- Three terminals: the main one (0) and two further ones (1, 2), nobody observing. -/
 def sw0 : Top := { xterms := #[{}, {}], sw := #[{}, {}, {}] }
@@ -429,25 +542,56 @@ theorem sigwinch_third_observer_unlinked (clears : Bool) :
     (swSignal t).fail = none := by
   cases clears <;> decide +kernel
 
-/-- OPEN (statement only): in the repaired configuration every history of observe / stop observing / destroy / SIGWINCH
-    over any number of terminals keeps the list a duplicate-free chain of exactly the live observing terminals, so no
-    walk fails.  Missing: the invariant (chain of `next` links from `swFirst` = the observers, links of the others
-    `none`) carried through `swAppend` / `swUnlink`; covered by correspondence (generator family `sigwinch`, and the
-    small-scope enumeration of the thorough tier). -/
-def sigwinch_list_safe : Prop :=
-  ∀ (tc : TCfg), tc.sigwinchClearsNext = true → ∀ (n : Nat) (ops : List (Nat × Nat)),
-    let run := ops.foldl (fun (t : Top) (o : Nat × Nat) =>
-      if t.fail.isSome then t
-      else match o.1 with
-        | 0 => swObserve t (o.2 + 1)
-        | 1 => swUnobserve tc t (o.2 + 1)
-        | 2 => if heldX t o.2 then xUnref tc t o.2 else t
-        | _ => swSignal t)
-      ({ xterms := Array.replicate n {}, sw := Array.replicate (n + 1) {} } : Top)
-    run.fail = none
+/-- **sigwinch_list_safe**: with the unlinked terminal's link reset (the repaired `tickit_term_observe_sigwinch`), every
+    history of creating further terminals, taking and dropping references to them (the last one destroys the
+    terminal, which stops its observation first), observing and no longer observing SIGWINCH on any of them and on the
+    main terminal, and SIGWINCH itself, over any number of terminals and in any order, runs to the end with no walk of
+    the observer list failing (`fail = none`: no link of a freed terminal is read, no NULL is followed, every walk
+    ends), and the list stays what it should be (`SwOk`, Proof/LifeSigwinch.lean): the links from
+    `first_sigwinch_observer` are a chain without repetition of exactly the terminals whose `observe_winch` is set,
+    all of them alive; every other terminal's link is NULL; the handler is installed exactly while the chain is not
+    empty.  The application passes only handles it holds (`xstep` skips the others, as the harness does) - the earlier
+    statement of this name lacked that guard and was false for a handle that does not exist.  The destruction of the
+    main terminal while it observes is part of `top_no_ub` below. -/
+theorem sigwinch_list_safe (ops : List XOp) (hops : ∀ op ∈ ops, op.isSw = true) (top : Top) (h : SwOk top) :
+    ∃ top', xrunOps extractedTop top ops = .ok top' ∧ SwOk top' ∧ top'.fail = none := by
+  obtain ⟨top', hr, ok, _⟩ := xrun_sw extractedTop_repaired.1 ops top h hops
+  exact ⟨top', hr, ok, ok.1⟩
+
+/-- What `SwOk` says, spelled out on the state: along the links from `first_sigwinch_observer` lie exactly the
+    terminals that observe, once each, none of them freed. -/
+theorem swOk_spelled_out {top : Top} (h : SwOk top) : top.fail = none ∧ ∃ l : List Nat,
+    ChainF (fun c => (swNode top c).next) top.swFirst l ∧ l.Nodup ∧ (∀ c, c ∈ l ↔ (swNode top c).obs = true) ∧
+    (∀ c ∈ l, swFreed top c = false) ∧ (∀ c, c ∉ l → (swNode top c).next = none) ∧ top.swHandler = top.swFirst.isSome := by
+  obtain ⟨hf, l, inv, h0⟩ := h
+  refine ⟨hf, l, inv.chain, inv.nodup, ?_, inv.allLive h0, fun c hc => (inv.out c hc).1, inv.handler⟩
+  intro c
+  constructor
+  · exact fun hc => (inv.mem c hc).2
+  · intro ho
+    apply Classical.byContradiction
+    intro hn
+    have := (inv.out c hn).2
+    unfold swObs at this
+    rw [this] at ho; cases ho
+
+/-- The state every history starts from satisfies it. -/
+example : SwOk ({} : Top) := swOk_init
+
+/-- Non-vacuity: the two histories of the repaired defect `sigwinch_stale_next` (and a third observer leaving) are
+    histories of this kind, and in the repaired configuration they run to the end. -/
+example : ∀ op ∈ [XOp.xnew, .xnew, .xobs 0 true, .xobs 1 true, .xobs 0 false, .xunref 1, .xobs 0 true, .winch,
+    .tobs true, .tobs false, .tobs true, .winch, .xref 0, .xunref 0, .xunref 0, .winch], op.isSw = true := by
+  intro op hop; simp at hop
+  rcases hop with rfl | rfl | rfl | rfl | rfl | rfl | rfl | rfl | rfl | rfl | rfl | rfl | rfl | rfl | rfl | rfl <;> rfl
+
+example : (match xrunOps extractedTop {} [.xnew, .xnew, .xobs 0 true, .xobs 1 true, .xobs 0 false, .xunref 1, .xobs 0 true, .winch,
+    .tobs true, .tobs false, .tobs true, .winch, .xref 0, .xunref 0, .xunref 0, .winch] with
+    | .ok t => (t.fail, t.swFirst, t.sw.map (·.next), t.swHandler) | _ => (none, none, #[], false))
+    = (none, some 0, #[none, none, none], true) := by decide +kernel
 
 /-- `tickit_term_set_input_fd` on a terminal that has its TermKey: the unrepaired code uses the TermKey it has
-    destroyed (known finding `set_input_fd_termkey`), whatever the state. -/
+    destroyed (the defect repaired by f040fc7 in /repo), whatever the state. -/
 theorem set_input_fd_uses_destroyed_termkey (tc : TCfg) (top : Top) (h : tc.setInputFdClearsTermkey = false)
     (ht : heldT top.st = true) (hf : top.hasFd = true) :
     ∃ what, xstepCore tc top .tsetin = .ub .mem what := by
@@ -455,7 +599,7 @@ theorem set_input_fd_uses_destroyed_termkey (tc : TCfg) (top : Top) (h : tc.setI
   unfold xstepCore
   simp [ht, hf, h]
 
-/-- With fixes/C08_set_input_fd_termkey.patch the call succeeds, whatever the state. -/
+/-- After the repair (the pointer is cleared) the call succeeds, whatever the state. -/
 theorem set_input_fd_repaired (tc : TCfg) (top : Top) (h : tc.setInputFdClearsTermkey = true) :
     ∃ t r, xstepCore tc top .tsetin = .ok (t, r) := by
   unfold xstepCore
@@ -473,5 +617,108 @@ theorem mock_resize_cells (t : RBFlush.MockTerm) (lines cols l c : Int) :
 
 example : ((mockResize ((RBFlush.MockTerm.new 6 10).goto 5 0 |>.print [0x61, 0x62]) 3 20).cells 2 0).str = some [0x20] := by
   decide +kernel
+
+/-! ## the terminal's bindings and input entry points, the toplevel instance (`Model/LifeTop.lean`)
+
+  The references the library itself holds in this layer are a parameter (`Ghost`) of the invariant of the lower layers:
+  the toplevel instance holds one reference to the terminal and one to the root window as long as it lives
+  (`instGhost`), an input entry point one more reference to the terminal while it works.  `TopInv` (Proof/LifeTop.lean)
+  is the invariant between two operations: the lower layers' invariant under what the instance holds (so the
+  terminal's count is the application's references + the instance's + the root window's, and no window holds more
+  than the application's and the instance's references), window handlers that free nothing, the terminal's binding
+  list (distinct ids, the root window's three handlers present only while it lives), the instance's own count (= the
+  application's references; no watch left once destroyed), the SIGWINCH chain (`SwOk`), and a root window that has
+  outlived its instance does not point to it any more. -/
+
+theorem extractedTop_trepaired : TRepaired extractedTop :=
+  ⟨extracted_repaired, extractedTop_repaired.1, extractedTop_repaired.2.1, extractedTop_repaired.2.2⟩
+
+/-- A history of this layer: every operation `no_ub` covers in the lower layers (with window handlers that free
+    nothing), key and mouse events, and the operations this layer adds - handlers bound on the terminal whose actions
+    are any API calls on windows (`tickit_window_unref` of any window included), `tickit_term_ref` and
+    `tickit_term_unref`; `tickit_term_input_push_bytes` / `_readable` / `_wait_*` / `_check_timeout_msec` with any
+    decodable input; the clock; `tickit_build` for a terminal, `tickit_ref` / `tickit_unref`, `tickit_watch_later` /
+    `_timer_after_msec` / `_cancel` with watches of any actions, `tickit_tick`; further terminals and SIGWINCH
+    observers; `tickit_term_set_input_fd`; printing on and resizing the mock terminal (`XOp.covered`). -/
+def TopHistory (ops : List XOp) : Prop := ∀ op ∈ ops, op.covered
+
+/-- **no_ub for the layer of the terminal's input and the toplevel instance**: from any state satisfying the invariant,
+    every history of covered operations in any order runs to the end - no freed object is touched, no NULL is
+    dereferenced, `abort()` is not called, no walk of the SIGWINCH list fails - and the invariant holds again.  In
+    particular `run_events_whilefalse` on the terminal finds the root window alive whenever it runs one of its three
+    handlers (a handler of the application that destroyed the root window has made them tombstones), the entry points
+    keep the terminal alive through handlers that drop the application's last reference to it, `tickit_destroy` gives
+    back exactly the two references the instance held, and a watch that fires during `tickit_tick` may drop any window
+    or the terminal's application references without the instance losing its terminal. -/
+theorem top_no_ub (ops : List XOp) (top : Top) (T : TopInv top) (h : TopHistory ops) :
+    ∃ top', xrunOps extractedTop top ops = .ok top' ∧ TopInv top' :=
+  xrun_top_ok extractedTop_trepaired ops top T h
+
+/-- The same from the very beginning: `new` / `newin` / `newtop`, then any covered history. -/
+theorem top_no_ub_from_start (start : XOp) (hstart : start.isNew = true) (ops : List XOp) (h : TopHistory ops) :
+    ∃ top', xrunOps extractedTop {} (start :: ops) = .ok top' ∧ TopInv top' :=
+  xrun_from_start extractedTop_trepaired start hstart ops h
+
+/-- **lifetime invariant of the layer**, spelled out on the state: (a) the terminal's binding list holds the root
+    window's handlers only while the root window lives; (b) while the toplevel instance lives the terminal and the root
+    window it refers to are alive (the root window's count is exactly the application's references plus the
+    instance's: no operation and no handler can take the instance's reference away), and the instance's count is the
+    number of references the application holds; (c) a destroyed instance
+    has no watch left and nobody refers to it; (d) a terminal the application still refers to has not been freed;
+    (e) the lower layers' invariant holds with the instance's two references accounted for: the terminal's count is
+    the application's references plus the instance's plus one for a live root window, and every live window's count
+    is the application's references plus - for the root window - the instance's. -/
+theorem top_lifetime_inv (start : XOp) (hstart : start.isNew = true) (ops : List XOp) (h : TopHistory ops) :
+    ∃ top, xrunOps extractedTop {} (start :: ops) = .ok top ∧
+      (∀ b ∈ top.tbinds, b.isApp = false → rootAlive top.st = true) ∧
+      (∀ i, top.inst = some i → i.freed = false → top.st.term.freed = false ∧ 1 ≤ top.st.term.refcount ∧
+        rootAlive top.st = true ∧ 1 ≤ i.refcount ∧ i.refcount = (i.appRefs : Int)) ∧
+      (∀ i, top.inst = some i → i.freed = true → i.laters = [] ∧ i.timers = [] ∧ i.appRefs = 0) ∧
+      (top.st.term.freed = true → top.st.term.appRefs = 0) ∧
+      (top.st.term.freed = false → (∃ r, LiveW top.st.tree 0 r) →
+        top.st.term.refcount = (top.st.term.appRefs : Int) + (top.ghost.term : Int) + 1) ∧
+      (∀ (i : Nat) (w : WinTree.Win), LiveW top.st.tree i w →
+        w.refcount = ((getX top.st i).appRefs : Int) + (top.ghost.win i : Int)) ∧
+      SwOk top := by
+  obtain ⟨top, hr, T⟩ := top_no_ub_from_start start hstart ops h
+  obtain ⟨f1, f2, f3, f4⟩ := T.facts
+  exact ⟨top, hr, f1, f2, f3, f4, fun hf hl => T.f.inv.term_held hf (.inl hl), T.exact, T.sw⟩
+
+/-- **all_released for the toplevel**: after any history of this layer, once the application has dropped every reference
+    it holds (`end`: windows from the highest handle down to the root window, pens, strings, buffers, the terminal; then
+    its references to the toplevel instance, the last of which runs `tickit_destroy`; then the further terminals),
+    nothing is left (`Top.anythingLeft`): every window, pen, string, buffer and the main terminal is freed and no
+    restacking request is queued, the toplevel instance is freed with all its watches, every further terminal is
+    freed, nobody stands in the list of SIGWINCH observers and the handler is no longer installed; and no walk of that
+    list has failed on the way. -/
+theorem top_all_released (start : XOp) (hstart : start.isNew = true) (ops : List XOp) (h : TopHistory ops) :
+    ∃ top, xrunOps extractedTop {} (start :: ops ++ [.base .«end»]) = .ok top ∧ top.anythingLeft = false ∧ top.fail = none :=
+  xrun_end extractedTop_trepaired start hstart ops h
+
+example : (xrunOps extractedTop {} [.base (.newTerm 6 10 true), .mprint 5 0 [0x61, 0x62], .mresize 3 20, .mresize 8 4, .base (.act .flush),
+    .base .«end»]).isOk = true := by decide +kernel
+
+example : (match xrunOps extractedTop {} [.newtop 6 12, .base (.win 0 ⟨0, 0, 2, 2⟩ 0), .base .pen, .base (.setpen 1 (some 0)), .xnew, .xobs 0 true,
+    .tobs true, .ilater [.tunref], .itimer 5 [.win (.unref 1)], .iref, .base .«end»] with
+    | .ok t => (t.anythingLeft, t.fail) | _ => (true, none)) = (false, none) := by decide +kernel
+
+/-- Non-vacuity: a terminal reading from a pipe whose key handler drops the root window, the application's reference
+    to the terminal and claims the event; a lone ESC that the timeout turns into a key; an instance whose deferred call
+    drops the root window and whose timer drops the terminal's application reference, `tickit_tick`, `tickit_unref`. -/
+example : TopHistory [.tbind .key true [.win (.unref 0), .tunref], .tpush [.chr], .tpush [.esc], .tick 60, .tcheck] := by
+  intro op hop; simp at hop
+  rcases hop with rfl | rfl | rfl | rfl | rfl <;> trivial
+
+example : (xrunOps extractedTop {} [.newin 6 12, .tbind .key true [.win (.unref 0), .tunref], .tpush [.chr], .tpush [.esc], .tick 60,
+    .tcheck]).isOk = true := by decide +kernel
+
+example : TopHistory [.base (.act (.ref 0)), .base .tref, .ilater [.win (.unref 0)], .itimer 5 [.tunref], .tick 10, .itick [.chr],
+    .iref, .iunref, .iunref] := by
+  intro op hop; simp at hop
+  rcases hop with rfl | rfl | rfl | rfl | rfl | rfl | rfl | rfl | rfl <;>
+    first | trivial | exact .inl ⟨.inl rfl, rfl, fun _ _ _ _ h => by cases h⟩
+
+example : (xrunOps extractedTop {} [.newtop 6 12, .base (.act (.ref 0)), .base .tref, .ilater [.win (.unref 0)], .itimer 5 [.tunref],
+    .tick 10, .itick [.chr], .iref, .iunref, .iunref]).isOk = true := by decide +kernel
 
 end Tickit.Props.C08
